@@ -238,7 +238,8 @@ fn type_family() -> Vec<TypeEntry> {
         ty!("Renamed", Renamed, true),
         ty!("Documented", Documented, true),
         ty!("Validated", Validated, true),
-        ty!("FractionalIntRange", FractionalIntRange, false),
+        // fractional range on an integer: inside `supported`, altered by the converter (K6)
+        ty!("FractionalIntRange", FractionalIntRange, true),
         ty!("SchemaAttrs", SchemaAttrs, true),
         ty!("GenericPlain", Generic<Plain>, true),
         ty!("GenericU8", Generic<u8>, true),
